@@ -412,6 +412,7 @@ Qed.
 
 Variable must_commit : exc.
 Notation gops := (gops exc cfail).
+Notation g_commit := (g_commit exc cfail).
 Notation ginteract := (ginteract exc cfail must_commit).
 Notation grun := (grun exc cfail must_commit).
 
@@ -419,29 +420,53 @@ Definition wops (ws : list (nat * bool)) : list gop := map (fun w => GWrite (fst
 Fixpoint wtrace (n d : nat) (ws : list (nat * bool)) : list event :=
   match ws with [] => [] | (i, _) :: r => ERun i n d :: wtrace (S n) d r end.
 
-Lemma gops_wops : forall ws ops x,
-  gops (wops ws ++ ops) x
-  = gops ops (mkst (depth x) (pend x ++ ws) (comm x) (tr x ++ wtrace (length (pend x)) (depth x) ws)).
+(* markers written by a stretch of generator code *)
+Fixpoint gwrites (ops : list gop) : list nat :=
+  match ops with [] => [] | GWrite i _ :: r => i :: gwrites r | _ :: r => gwrites r end.
+
+Lemma gops_wops : forall ws ops x fl,
+  gops (wops ws ++ ops) x fl
+  = gops ops (mkst (depth x) (pend x ++ ws) (comm x) (tr x ++ wtrace (length (pend x)) (depth x) ws)) fl.
 Proof.
-  induction ws as [|[i b] ws IH]; intros ops x.
+  induction ws as [|[i b] ws IH]; intros ops x fl.
   - cbn. rewrite !app_nil_r. destruct x; reflexivity.
   - cbn [wops map app C18Session.gops fst snd]. fold (wops ws). rewrite IH. cbn [depth pend comm tr].
     rewrite app_length, Nat.add_1_r, <- !app_assoc. reflexivity.
 Qed.
 
-Lemma gops_inv : forall ops x,
-  depth (fst (gops ops x)) = depth x /\ exists l, comm (fst (gops ops x)) = comm x ++ l.
+(* gops keeps the counter; committed data only grows *)
+Lemma gops_inv : forall ops x fl,
+  depth (fst (fst (gops ops x fl))) = depth x /\ exists l, comm (fst (fst (gops ops x fl))) = comm x ++ l.
 Proof.
-  induction ops as [|op ops IH]; intros x.
+  induction ops as [|op ops IH]; intros x fl.
   - cbn. split; [reflexivity|exists []; rewrite app_nil_r; reflexivity].
-  - destruct op as [i b|]; cbn [C18Session.gops].
-    + destruct (IH (mkst (depth x) (pend x ++ [(i, b)]) (comm x) (tr x ++ [ERun i (length (pend x)) (depth x)]))) as [H1 [l H2]].
+  - destruct op as [i b| |]; cbn [C18Session.gops].
+    + match goal with |- context [gops ops ?y fl] => destruct (IH y fl) as [H1 [l H2]] end.
       split; [exact H1|exists l; exact H2].
-    + unfold C18Session.do_commit. destruct (poisoned x); cbn.
+    + destruct (poisoned x); cbn.
       * split; [reflexivity|exists []; rewrite app_nil_r; reflexivity].
-      * match goal with |- context [gops ops ?y] => destruct (IH y) as [H1 [l H2]] end.
-        destruct (gops ops _) as [x1 o1]; cbn in *.
-        destruct o1; (split; [exact H1|]); rewrite H2; cbn; rewrite <- app_assoc; eexists; reflexivity.
+      * match goal with |- context [gops ops ?y ?f] => destruct (IH y f) as [H1 [l H2]] end.
+        split; [exact H1|exists l; exact H2].
+    + unfold C18Session.g_commit. destruct (poisoned x); cbn.
+      * split; [reflexivity|exists []; rewrite app_nil_r; reflexivity].
+      * match goal with |- context [gops ops ?y []] => destruct (IH y []) as [H1 [l H2]] end.
+        split; [exact H1|]. rewrite H2; cbn. rewrite <- !app_assoc. eexists; reflexivity.
+Qed.
+
+(* nothing is lost on the way: committed ++ flushed ++ pending grows exactly by what was written *)
+Lemma gops_conserve : forall ops x fl,
+  snd (gops ops x fl) = Ok ->
+  comm (fst (fst (gops ops x fl))) ++ snd (fst (gops ops x fl)) ++ map fst (pend (fst (fst (gops ops x fl))))
+  = comm x ++ fl ++ map fst (pend x) ++ gwrites ops.
+Proof.
+  induction ops as [|op ops IH]; intros x fl Hok.
+  - cbn. rewrite app_nil_r. reflexivity.
+  - destruct op as [i b| |]; cbn [C18Session.gops gwrites] in *.
+    + rewrite IH; [|exact Hok]. cbn [depth pend comm tr]. rewrite map_app. cbn. rewrite <- !app_assoc. reflexivity.
+    + destruct (poisoned x); [discriminate Hok|].
+      rewrite IH; [|exact Hok]. cbn [depth pend comm tr]. cbn. rewrite <- !app_assoc. reflexivity.
+    + unfold C18Session.g_commit in *. destruct (poisoned x); [discriminate Hok|].
+      rewrite IH; [|exact Hok]. cbn [depth pend comm tr]. cbn. rewrite <- !app_assoc. reflexivity.
 Qed.
 
 (* after every resumption (whether the generator suspended again, ended or raised) the session is closed and nothing is
@@ -451,14 +476,15 @@ Lemma ginteract_inv : forall stp x,
   depth (fst r) = 0 /\ pend (fst r) = [] /\ exists l, comm (fst r) = comm x ++ l.
 Proof.
   intros [ops e] x. unfold C18Session.ginteract. cbn [fst snd].
-  match goal with |- context [gops ops ?y] => destruct (gops_inv ops y) as [_ [l Hl]]; destruct (gops ops y) as [x1 o] end.
+  match goal with |- context [gops ops ?y []] => destruct (gops_inv ops y []) as [_ [l Hl]]; destruct (gops ops y []) as [[x1 fl] o] end.
   cbn [fst comm emit set_depth] in Hl.
   destruct o as [|e1].
   - destruct e as [| |e2].
-    + destruct (pend x1) eqn:Hp; cbn; (split; [reflexivity|split; [try reflexivity; try exact Hp|exists l; exact Hl]]).
-    + unfold C18Session.do_commit. destruct (poisoned x1); cbn.
+    + unfold g_dirty. destruct (pend x1) eqn:Hp; [destruct fl|]; cbn;
+        (split; [reflexivity|split; [try reflexivity; try exact Hp|exists l; exact Hl]]).
+    + unfold C18Session.g_commit. destruct (poisoned x1); cbn.
       * split; [reflexivity|split; [reflexivity|exists l; exact Hl]].
-      * split; [reflexivity|split; [reflexivity|]]. rewrite Hl, <- app_assoc. eexists; reflexivity.
+      * split; [reflexivity|split; [reflexivity|]]. rewrite Hl, <- !app_assoc. eexists; reflexivity.
     + cbn. split; [reflexivity|split; [reflexivity|exists l; exact Hl]].
   - cbn. split; [reflexivity|split; [reflexivity|exists l; exact Hl]].
 Qed.
@@ -478,7 +504,31 @@ Proof.
       split; [exact G1|split; [exact G2|]]. rewrite G3, H3, <- app_assoc. eexists; reflexivity.
 Qed.
 
-(* one resumption whose code only writes (no manual commit) *)
+(* THE generator property: if a resumption ends without an exception - the generator suspends again, or finishes - then every
+   write it made (flushed or not, before or after manual commits) is committed; "finished normally but the changes are gone"
+   cannot happen.  In particular the generator is never suspended with an open transaction. *)
+Theorem gstep_no_exception_all_committed : forall ops e x,
+  depth x = 0 -> pend x = [] ->
+  let r := ginteract (ops, e) x in
+  (snd r = None \/ snd r = Some Ok) ->
+  comm (fst r) = comm x ++ gwrites ops.
+Proof.
+  intros ops e [d pe c t] Hd Hp; cbn in Hd, Hp; subst d pe.
+  unfold C18Session.ginteract. cbn [fst snd].
+  set (x0 := emit EBegin (set_depth 1 (mkst 0 [] c t))).
+  pose proof (gops_conserve ops x0 []) as Hc.
+  destruct (gops ops x0 []) as [[x1 fl] o]. cbn [fst snd] in Hc.
+  destruct o as [|e1]; [|cbn; intros [H|H]; discriminate H].
+  specialize (Hc eq_refl). subst x0. cbn [comm pend emit set_depth app map] in Hc.
+  destruct e as [| |e2].
+  - unfold g_dirty. destruct (pend x1) eqn:Hpe; [destruct fl|]; cbn; try (intros [H|H]; discriminate H).
+    intros _. cbn in Hc. rewrite app_nil_r in Hc. exact Hc.
+  - unfold C18Session.g_commit. destruct (poisoned x1); cbn; [intros [H|H]; discriminate H|].
+    intros _. rewrite <- Hc. reflexivity.
+  - cbn. intros [H|H]; discriminate H.
+Qed.
+
+(* one resumption whose code only writes (no flush, no manual commit) *)
 Theorem gstep_writes : forall ws e x,
   depth x = 0 -> pend x = [] ->
   let r := ginteract (wops ws, e) x in
@@ -495,9 +545,22 @@ Proof.
   rewrite <- (app_nil_r (wops ws)), gops_wops. cbn [C18Session.gops depth pend comm tr emit set_depth app].
   destruct e as [| |e'].
   - destruct ws; cbn; split; reflexivity.
-  - unfold C18Session.do_commit, poisoned. cbn [pend]. destruct (existsb snd ws); cbn; split; try reflexivity.
+  - unfold C18Session.g_commit, poisoned. cbn [pend]. destruct (existsb snd ws); cbn; split; try reflexivity.
     rewrite app_nil_r; reflexivity.
   - cbn. split; reflexivity.
+Qed.
+
+(* writes that were flushed (explicitly or by a query) leave an open transaction: suspending is refused and they are rolled back *)
+Theorem gstep_flushed_then_yield : forall ws x,
+  depth x = 0 -> pend x = [] -> ws <> [] -> existsb snd ws = false ->
+  let r := ginteract (wops ws ++ [GFlush], GYield) x in
+  comm (fst r) = comm x /\ snd r = Some (Raise must_commit) /\ pend (fst r) = [].
+Proof.
+  intros ws [d pe c t] Hd Hp Hne Hb; cbn in Hd, Hp; subst d pe.
+  unfold C18Session.ginteract. cbn [fst snd].
+  rewrite gops_wops. cbn [C18Session.gops depth pend comm tr emit set_depth app].
+  unfold poisoned. cbn [pend]. rewrite Hb. cbn.
+  destruct ws as [|w ws]; [contradiction|]. cbn. repeat split; reflexivity.
 Qed.
 
 (* writes followed by a manual commit() may be followed by a suspension *)
@@ -509,7 +572,7 @@ Proof.
   intros ws [d pe c t] Hd Hp Hb; cbn in Hd, Hp; subst d pe.
   unfold C18Session.ginteract. cbn [fst snd].
   rewrite gops_wops. cbn [C18Session.gops depth pend comm tr emit set_depth app].
-  unfold C18Session.do_commit, poisoned. cbn [pend]. rewrite Hb. cbn. repeat split; reflexivity.
+  unfold C18Session.g_commit, poisoned. cbn [pend]. rewrite Hb. cbn. repeat split; reflexivity.
 Qed.
 
 End Proofs.
